@@ -10,7 +10,7 @@ of pairs i<j, each once.
 import itertools
 import numpy as np
 from mc.checks.common import *
-from mc.ref.bonds import COVALENT_RADII, NON_METALS, cutoff, ref_bonds
+from mc.ref.bonds import COVALENT_RADII, NON_METALS, cutoff, ref_bonds, ref_bonds_fast
 from mc.ref.geom import wrap, perpendicular_widths
 from mc.alphabet.geom import CELLS as GCELLS, PLACEMENTS
 from mofun.detect_bonds import detect_bonds
@@ -57,18 +57,46 @@ NPAIRS = [('Cs', 'Cs'), ('Fr', 'Fr'), ('K', 'Rb'), ('Ba', 'O'), ('Cs', 'F'), ('C
 NGRID = [0.0, 0.2, 0.35, 0.45, 0.5, 0.55, 0.65, 0.8]
 
 
+# part D, beyond the small bound: cells and coordinates of 1e7 ... 1e8 A; more than 1025 atoms in orders that bond atoms more than 1024 places apart
+FAR = [('no cell, coordinates near 1e7', None, 1.0e7), ('no cell, coordinates near 1e8', None, 1.0e8), ('cubic cell 3e7', 3.0e7 * np.identity(3), 2.0e7),
+       ('triclinic cell 2e7', 2.0e7 * np.array([[1.0, 0, 0], [0.3, 1.0, 0], [-0.2, 0.25, 1.0]]), 1.5e7), ('cubic cell 4e8', 4.0e8 * np.identity(3), 2.5e8)]
+FAR_PAIRS = [('C', 'C'), ('Zr', 'O'), ('Cu', 'Cu'), ('Cs', 'Fr'), ('H', 'O')]
+BIG = [('shuffled 11x10x10 lattice, cubic cell', 1100, 'cubic', 1), ('the same lattice in its natural order', 1100, 'cubic', 0), ('cloud of 1150 atoms, no cell', 1150, None, 1), ('cloud of 1200 atoms, triclinic cell', 1200, 'tri', 1)]
+
+
+def big_case(i, seed):
+    name, n, ckind, shuffle = BIG[i]
+    r = np.random.RandomState(1700 + i)
+    els = [['C', 'O', 'Zr', 'H', 'Cu', 'N'][j % 6] for j in range(n)]
+    if 'lattice' in name:
+        cell = np.diag([11 * 1.9, 10 * 1.9, 10 * 1.9]); pos = np.array([(1.9 * (j % 11) + 0.3, 1.9 * ((j // 11) % 10) + 0.2, 1.9 * (j // 110) + 0.1) for j in range(n)])
+        pos = pos + r.uniform(-0.25, 0.25, pos.shape)
+    else:
+        cell = None if ckind is None else np.array([[26.0, 0, 0], [6.0, 25.0, 0], [-5.0, 4.0, 27.0]])
+        pos = r.uniform(0.02, 0.98, (n, 3)) @ (cell if cell is not None else np.diag([24.0, 24.0, 24.0]))
+    if shuffle:
+        perm = r.permutation(n); pos = pos[perm]; els = [els[j] for j in perm]
+    return name, els, pos, cell
+
+
 def plan(tier, seed):
     scs = [dict(part='A', a=i) for i in range(len(ELS))]
     scs += [dict(part='C', cell=ci, pair=pi) for ci in range(len(NCELLS)) for pi in range(len(NPAIRS))]
+    scs += [dict(part='D', far=i) for i in range(len(FAR))] + [dict(part='D', big=i) for i in range(len(BIG))]
     shifts = 4 if tier == 'quick' else 10
     places = PLACEMENTS[::4] if tier == 'quick' else PLACEMENTS
     scs += [dict(part='B', cell=ci, cl=k, place=list(pl)) for ci in range(len(GCELLS)) for k in range(4) for pl in places]
     return dict(scenarios=scs, exhaustive=True, chunk=2,
                 menus=dict(symbols=len(ELS), distances=['cutoff-1e-3', 'cutoff+1e-3', 'exactly the cutoff (where the tie is exact in floating point)'], pair_cells=[c[0] for c in PCELLS], placements=[p[0] for p in PLACES], order=['a,b', 'b,a'],
-                           assembly_cells=[c[0] for c in GCELLS], assemblies=4, assembly_placements=len(places), shifts=shifts, narrow_cells=[c[0] for c in NCELLS], narrow_pairs=['-'.join(p) for p in NPAIRS], narrow_grid='fractional separations %r^2 x {0, 0.3, 0.5} at two anchors' % (NGRID,), permutations=['reverse', 'rotate', 'interleave']),
+                           assembly_cells=[c[0] for c in GCELLS], assemblies=4, assembly_placements=len(places), shifts=shifts, narrow_cells=[c[0] for c in NCELLS], narrow_pairs=['-'.join(p) for p in NPAIRS], narrow_grid='fractional separations %r^2 x {0, 0.3, 0.5} at two anchors' % (NGRID,), permutations=['reverse', 'rotate', 'interleave'], far=[f[0] for f in FAR], far_pairs=['-'.join(p) for p in FAR_PAIRS], big=[b[0] for b in BIG]),
                 bounds=dict(), rule='part A: one scenario per first symbol, all partners/distances/placements/cells/orders inside; non-trivial = the pair is bonded only through a periodic image',
                 assumptions=['radius and non-metal tables frozen at the pinned commit (mc/ref/bonds.py)', 'cells have perpendicular widths > 10.4 (pairs) / 7.4 (assemblies) > the largest cutoff 5.2',
                              'assembly pairs within 1e-6 of their cutoff are not compared'])
+
+
+def min_d(pos, cell):
+    from mc.ref.bonds import min_image_distance
+    return min_image_distance(pos[0], pos[1], cell)
 
 
 def as_pairs(arr):
@@ -149,6 +177,50 @@ def run(sc, ctx):
                 out['outcomes'][key] = out['outcomes'].get(key, 0) + 1
                 out['nontrivial'] += 1 if exp else 0
         out['hashes'].add(h64(('C', sc['cell'], sc['pair'])))
+        return out
+    if sc['part'] == 'D':
+        if 'far' in sc:
+            name, cell, mag = FAR[sc['far']]
+            for a, b in FAR_PAIRS:
+                c = cutoff(a, b)
+                for dist in (c - 0.02, c + 0.02, 0.6 * c, c - 0.2):
+                    for pname, fr, step in (PLACES if cell is not None else PLACES[:1]):
+                        if cell is None:
+                            p1 = np.array([mag, -0.7 * mag, 0.4 * mag]); d = np.array(step, float)
+                        else:
+                            p1 = np.array(fr) @ cell; d = np.array(step, float) @ cell
+                            if pname == 'inside':
+                                p1 = np.array([0.55, 0.6, 0.7]) @ cell
+                        d = d / np.linalg.norm(d); p2 = p1 + d * dist
+                        pos = np.array([p1, p2]) if cell is None else wrap(np.array([p1, p2]), cell)
+                        exp, gray = ref_bonds(pos, [a, b], cell, margin=1e-6)      # distances measured on the stored coordinates
+                        if gray:
+                            continue
+                        for order in (0, 1):
+                            e = [a, b] if order == 0 else [b, a]; P = pos if order == 0 else pos[::-1]
+                            got, err = call(lambda: detect_bonds(mkatoms(e, P, cell)))
+                            out['evals'] += 1; out['compared'] += 1
+                            if err or as_pairs(got) != exp:
+                                out['violations'].append(viol('pair-rule', 'far-coordinates', '%s-%s at distance %.6f (cutoff %.3f), %s, %s: detected %r, rule says %r' % (e[0], e[1], min_d(pos, cell), c, name, pname, err[0] if err else as_pairs(got), exp), sc,
+                                                              elements=e, positions=P.tolist(), cell=None if cell is None else cell.tolist()))
+                        key = 'far %s' % ('bonded' if exp else 'apart'); out['outcomes'][key] = out['outcomes'].get(key, 0) + 1
+                        out['nontrivial'] += 1 if exp else 0
+            out['hashes'].add(h64(('far', sc['far'])))
+            return out
+        name, els, pos, cell = big_case(sc['big'], ctx['seed'])
+        exp, gray = ref_bonds_fast(pos, els, cell, margin=1e-6)
+        got, err = call(lambda: detect_bonds(mkatoms(els, pos, cell)))
+        out['evals'] += 1; out['compared'] += 1; out['hashes'].add(h64(('big', sc['big'])))
+        if err:
+            out['violations'].append(viol('assembly', 'big-exc:' + exc_sig(err), '%s: detect_bonds raised %r' % (name, err[0]), sc)); return out
+        gp = as_pairs(got); gs = set(gp) - set(gray); es = set(exp) - set(gray)
+        if any(i >= j for i, j in gp) or len(set(gp)) != len(gp):
+            out['violations'].append(viol('assembly', 'big-pairs', '%s: pairs are not i<j / unique (%d pairs, %d distinct)' % (name, len(gp), len(set(gp))), sc))
+        elif gs != es:
+            far = sorted(p for p in (gs ^ es) if abs(p[0] - p[1]) > 1024)
+            out['violations'].append(viol('assembly', 'big-set', '%s: %d bonds by the rule, %d detected; %d missing %r, %d spurious %r (of the differing pairs %d join atoms more than 1024 places apart)' % (
+                name, len(es), len(gs), len(es - gs), sorted(es - gs)[:3], len(gs - es), sorted(gs - es)[:3], len(far)), sc))
+        out['outcomes']['big bonds>1024 apart=%s' % (any(abs(i - j) > 1024 for i, j in exp))] = 1; out['nontrivial'] += 1
         return out
     # ---- part B
     cname, cell = GCELLS[sc['cell']]
